@@ -3,6 +3,7 @@ package core
 import (
 	"go/constant"
 	"go/token"
+	"go/types"
 
 	"verif/third_party/xtools/go/ssa"
 )
@@ -66,6 +67,10 @@ func expandCond(c ssa.Value, pol bool, iff *ssa.If, seen map[*ssa.Phi]bool) []Gu
 		c, pol = u.X, !pol
 	}
 	out := []Guard{{Cond: c, Pol: pol, If: iff}}
+	if bo, isBin := c.(*ssa.BinOp); isBin && (bo.Op == token.EQL || bo.Op == token.NEQ) {
+		out = append(out, expandNilTest(bo, pol, seen)...)
+		return out
+	}
 	phi, ok := c.(*ssa.Phi)
 	if !ok || seen[phi] {
 		return out
@@ -381,4 +386,128 @@ func (c *PrunedCFG) ReachableFrom(b *ssa.BasicBlock) map[*ssa.BasicBlock]bool {
 	}
 	walk(b)
 	return seen
+}
+
+// expandNilTest: a test "φ == nil" / "φ != nil" with a known outcome rules
+// out the edges of φ whose value is known to be of the other kind (a constant
+// nil, a sentinel error variable, a freshly made interface value, or a value
+// the edge itself has just compared with nil). What all remaining edges agree
+// on is known as well:
+//
+//	if err == nil && n != sz { err = io.ErrShortWrite }
+//	if err != nil { return }        // here: err == nil came in through the edge
+//	                                // on which n == sz held
+func expandNilTest(bo *ssa.BinOp, pol bool, seen map[*ssa.Phi]bool) []Guard {
+	var phi *ssa.Phi
+	var other ssa.Value
+	if p, ok := bo.X.(*ssa.Phi); ok {
+		phi, other = p, bo.Y
+	} else if p, ok := bo.Y.(*ssa.Phi); ok {
+		phi, other = p, bo.X
+	}
+	k, isConst := other.(*ssa.Const)
+	if phi == nil || !isConst || k.Value != nil || seen[phi] {
+		return nil
+	}
+	seen[phi] = true
+	wantNil := (bo.Op == token.EQL) == pol
+	var feasible [][]Guard
+	for i, e := range phi.Edges {
+		pred := phi.Block().Preds[i]
+		eg := EdgeGuards(pred, phi.Block())
+		kind := nilKind(e)
+		for _, g := range eg {
+			if b2, ok := g.Cond.(*ssa.BinOp); ok && (b2.Op == token.EQL || b2.Op == token.NEQ) {
+				var o ssa.Value
+				switch {
+				case b2.X == e:
+					o = b2.Y
+				case b2.Y == e:
+					o = b2.X
+				default:
+					continue
+				}
+				if c2, ok := o.(*ssa.Const); ok && c2.Value == nil {
+					if (b2.Op == token.EQL) == g.Pol {
+						kind = 1
+					} else {
+						kind = 2
+					}
+				}
+			}
+		}
+		if kind == 1 && !wantNil || kind == 2 && wantNil {
+			continue
+		}
+		feasible = append(feasible, eg)
+	}
+	if len(feasible) == 0 || len(feasible) == len(phi.Edges) {
+		return nil
+	}
+	// what every feasible edge guarantees
+	var out []Guard
+	for _, g := range feasible[0] {
+		all := true
+		for _, fg := range feasible[1:] {
+			has := false
+			for _, h := range fg {
+				if h.Cond == g.Cond && h.Pol == g.Pol {
+					has = true
+				}
+			}
+			if !has {
+				all = false
+			}
+		}
+		if all {
+			out = append(out, g)
+		}
+	}
+	return out
+}
+
+// nilKind: 1 = certainly nil, 2 = certainly not nil, 0 = unknown.
+func nilKind(v ssa.Value) int {
+	switch x := v.(type) {
+	case *ssa.Const:
+		if x.Value == nil {
+			return 1
+		}
+	case *ssa.MakeInterface, *ssa.Alloc, *ssa.MakeClosure, *ssa.MakeMap, *ssa.MakeChan, *ssa.MakeSlice, *ssa.FieldAddr, *ssa.IndexAddr, *ssa.Function:
+		return 2
+	case *ssa.UnOp:
+		if g, ok := x.X.(*ssa.Global); ok && x.Op == token.MUL && current != nil {
+			if current.sentinels == nil {
+				current.sentinels = current.sentinelGlobals()
+			}
+			if current.sentinels[g] || isStdSentinel(g) {
+				return 2
+			}
+		}
+	case *ssa.Call:
+		if c := x.Call.StaticCallee(); c != nil {
+			switch c.String() {
+			case "errors.New", "fmt.Errorf":
+				return 2
+			}
+		}
+	}
+	return 0
+}
+
+// isStdSentinel: exported error variables of the standard library (io.EOF,
+// io.ErrShortWrite, ...) are initialised once with errors.New.
+func isStdSentinel(g *ssa.Global) bool {
+	if g.Pkg == nil || g.Object() == nil || !g.Object().Exported() {
+		return false
+	}
+	pt, ok := g.Type().(*types.Pointer)
+	if !ok || pt.Elem().String() != "error" {
+		return false
+	}
+	switch g.Pkg.Pkg.Path() {
+	case "io", "errors", "os", "net", "context", "io/fs", "net/http", "crypto/tls", "bufio", "bytes", "strings":
+		return true
+	}
+	return false
 }
